@@ -278,6 +278,41 @@ def obligations(tier, seed):
                            'function\'s own n at return): loop invariant factor^m * n == n0 without wrap; ++m does not wrap (m < 64), no division by zero, terminates (decreases n). '
                            'Arithmetic by lemmas mu_init, mu_step (Lean)',
                   functions_under_contract=('au::detail::multiplicity',)))
+    obs.append(Ob(id='C12.lemmas.jacobi', prop='C12', group='C12.lemmas', kind='S', budget=600, body='', prelude='', wrappers=[], inputs=[],
+                  dfcc=dict(tool='lean', text=LM.lean_file(CL.JACOBI, CL.JACOBI_PRELUDE)),
+                  contract='Lean 4 + Mathlib accept: ' + '; '.join('%s (%s)' % (l.name, l.doc) for l in CL.JACOBI)))
+    jp = M['jacobi_pos']
+    J_REL = '(int)m_result * ((int)SPEC_jac(m_a_addr, m_n_addr) - 1) == (int)(int32_t)vf_ghost[2] * ((int)SPEC_jac(vf_ghost[0], vf_ghost[1]) - 1)'
+    J_COMMON = '(m_n_addr & 1) == 1 && m_n_addr > 1 && m_a_addr < m_n_addr && (m_result == 1 || m_result == -1)'
+    jl = lambda x, y: [CL.jc_basic.inst(a=x, n=y), CL.jc_even.inst(a=x, n=y), CL.jc_flip.inst(a=x, n=y)]
+    obs.append(Ob(id='C12.exact.jacobi_symbol_positive_numerator', prop='C12', group='C12', prelude=PRE, wrappers=WRAPS,
+                  inputs=[('uint64_t', 'a'), ('uint64_t', 'n'), ('int32_t', 'start')],
+                  body="""
+  ASSUME((n & 1) == 1 && n > 1 && a < n && (start == 1 || start == -1));
+  vf_ghost[0] = a; vf_ghost[1] = n; vf_ghost[2] = (uint64_t)(int64_t)start;
+  ASSUME(%s);   /* lemma jc_basic at (a, n) */
+  int32_t r = (int32_t)TARGET(a, n, (uint32_t)start);
+  CHECK(r == start * ((int)SPEC_jac(a, n) - 1), "result-is-start-times-the-jacobi-symbol");
+""" % CL.jc_basic.inst(a='a', n='n'),
+                  kind='L', promote=False, wrap=True, budget=300, defs=('LL2C_UF_ARITH=1',), needs=('C12.lemmas.jacobi',),
+                  dfcc=dict(target=jp, replace=[M['gcd'], M['bool_sign']],
+                            native_search=dict(pre='(n & 1) == 1 && n > 1 && a < n && (start == 1 || start == -1)', adjust='start = (start & 1) ? 1 : -1; n |= 1; if (n > 1) a %= n;',
+                                               call='au::detail::jacobi_symbol_positive_numerator(a, n, start)', ret='int', post='r == start * ref_jacobi(a, n)',
+                                               helpers='static int ref_jacobi(uint64_t a, uint64_t n) { int t = 1; a %= n; while (a) { int z = __builtin_ctzll(a); a >>= z; '
+                                                       'if ((z & 1) && ((n & 7) == 3 || (n & 7) == 5)) t = -t; if ((a & 3) == 3 && (n & 3) == 3) t = -t; uint64_t x = a; a = n % x; n = x; } return n == 1 ? t : 0; }'),
+                            contracts={jp: dict(requires=[], ensures=[], assigns='',
+                                                loops={0: dict(invariant=[J_COMMON, J_REL], decreases='m_n_addr', assigns='m_a_addr, m_n_addr, m_result, m_sign_for_even, m_new_a, m_retval',
+                                                               lemmas=jl('m_a_addr', 'm_n_addr')),
+                                                       1: dict(invariant=[J_COMMON, J_REL, 'm_a_addr != 0', 'm_sign_for_even == (((m_n_addr % 8) == 1 || (m_n_addr % 8) == 7) ? 1 : -1)'],
+                                                               decreases='m_a_addr', assigns='m_a_addr, m_result',
+                                                               lemmas=jl('m_a_addr', 'm_n_addr') + jl('m_a_addr / 2', 'm_n_addr') + jl('LL2C_UREM64(m_n_addr, m_a_addr)', 'm_a_addr'))}),
+                                       M['gcd']: dict(requires=[], ensures=['%s == SPEC_gcd(v_a, v_b)' % RV], assigns=''),
+                                       M['bool_sign']: CONTRACTS['bool_sign']}),
+                  contract='jacobi_symbol_positive_numerator(a, n, start), n odd > 1, a < n, start = +-1, returns EXACTLY start * (a|n) (Mathlib jacobiSym is the specification): loop '
+                           'invariants result * (a|n) == start * (a0|n0), n odd > 1, a < n; gcd replaced by its EXACT contract (C12.exact.gcd), bool_sign by its proved contract; the int '
+                           'multiplications do not overflow, no division by zero, both loops terminate (decreases n / a). Arithmetic by lemmas jc_basic, jc_even, jc_flip (Lean: multiplicativity, '
+                           'the second supplement, quadratic reciprocity)',
+                  functions_under_contract=('au::detail::jacobi_symbol_positive_numerator',)))
     # find_prime_factor: every return path hands out a table prime that divides n, n itself (trial division exhausted or is_prime(n)), or a value for which
     # is_prime has just answered true.  is_prime is under its purity contract (a deterministic predicate), find_pollard_rho_factor under `no guarantee at all`.
     fpf = M['find_prime_factor']; ISP = 'f_' + M['is_prime']
@@ -304,16 +339,18 @@ def obligations(tier, seed):
     JP = 'f_' + M['jacobi_pos']
     obs.append(Ob(id='C12.refinement.jacobi_symbol', prop='C12', group='C12', prelude=PRE, wrappers=WRAPS, inputs=[('int64_t', 'a'), ('uint64_t', 'n')], body='''
   ASSUME(n > 1 && (n & 1) == 1 && a != INT64_MIN);
-  uint32_t r = TARGET((uint64_t)a, n);
   uint64_t mag = a < 0 ? (uint64_t)(-a) : (uint64_t)a;
+  ASSUME(%s);   /* lemma rem_facts at (|a|, n) */
+  uint32_t r = TARGET((uint64_t)a, n);
   CHECK(%s_calls == 1, "delegates-once-to-the-positive-numerator-routine");
   CHECK(%s_last_key[0] < n && %s_last_key[0] <= mag && (mag >= n || %s_last_key[0] == mag), "numerator-is-a-residue-of-abs-a");
+  CHECK(%s_last_key[0] == LL2C_UREM64(mag, n), "numerator-is-exactly-abs-a-mod-n");
   CHECK(%s_last_key[1] == n, "modulus-is-passed-unchanged");
   CHECK((int32_t)%s_last_key[2] == ((a >= 0 || (n %% 4) == 1) ? 1 : -1), "start-sign-is-minus-one-over-n-for-negative-a");
   CHECK(r == %s_last_ret, "returns-what-the-routine-returned");
-''' % (JP, JP, JP, JP, JP, JP, JP), kind='L', promote=False, wrap=False, budget=300,
+''' % (CL.rem_facts.inst(x='mag', n='n'), JP, JP, JP, JP, JP, JP, JP, JP), kind='L', promote=False, wrap=False, budget=300, defs=('LL2C_UF_ARITH=1',), needs=('C12.lemmas.jacobi',),
                   dfcc=dict(target=M['jacobi'], target_re=r'^_ZN2au6detail13jacobi_symbolE', pure=['^' + M['jacobi_pos'] + '$'], contracts={M['jacobi']: dict(requires=[], ensures=[], assigns='')}),
-                  contract='jacobi_symbol(a, n), n odd > 1: calls jacobi_symbol_positive_numerator exactly once with a numerator that is a residue of |a| below n (equal to |a| when |a| < n; that it is exactly |a| mod n is two symbolic 64-bit dividers no back end equates), modulus n, and start sign +1 for a >= 0 and '
+                  contract='jacobi_symbol(a, n), n odd > 1: calls jacobi_symbol_positive_numerator exactly once with a numerator that is a residue of |a| below n (exactly |a| mod n: the remainder operator is an uninterpreted function on both sides, so the claim is that the code applies it to |a| and n), modulus n, and start sign +1 for a >= 0 and '
                            '(-1/n) = (n mod 4 == 1 ? +1 : -1) for a < 0, and returns its result; no UB:*.  The positive-numerator routine itself stays ASSUMED',
                   functions_under_contract=('au::detail::jacobi_symbol',)))
     obs.append(D('C12.callsites.strong_lucas', 'strong_lucas', '  uint64_t n;\n  f_%s(n);' % M['strong_lucas'],
